@@ -1,10 +1,18 @@
 use crate::util::{Ctx, Report};
 
 pub mod c01;
+pub mod c05;
+pub mod c07;
+pub mod c08;
+pub mod c09;
 
 pub fn dispatch(ctx: &Ctx, rep: &mut Report) -> bool {
     match ctx.prop.as_str() {
         "C01" => c01::run(ctx, rep),
+        "C05" => c05::run(ctx, rep),
+        "C07" => c07::run(ctx, rep),
+        "C08" => c08::run(ctx, rep),
+        "C09" => c09::run(ctx, rep),
         _ => return false,
     }
     true
